@@ -22,6 +22,8 @@ def sess(st, a, stay, kind, idx=0):
         s.update(batt="ideal", e=22.0 + 1.3 * idx, cap=80.0, init=0.0, pmax=9.0)
     elif kind == "small":  # finishes during the run: remaining amp-periods becomes the binding bound
         s.update(batt="ideal", e=0.71 + 0.017 * idx, cap=5.0, init=1.0, pmax=9.0)
+    elif kind == "capped":  # the battery is full long before the request is met: the actual rate drops to 0 under a positive pilot
+        s.update(batt="ideal", e=6.0 + 0.3 * idx, cap=2.0, init=1.4, pmax=9.0)
     elif kind == "l2c":  # two-stage battery in its ramp-down region
         s.update(batt="l2c", e=1.9 + 0.11 * idx, cap=10.0, init=7.9, pmax=7.0)
     return s
@@ -64,6 +66,37 @@ def scenarios(tier, nets, unint_values=(False, True)):
                     yield {"net": netname, "sessions": ss, "sched": opt, "period": 5}
 
 
+def extra_scenarios(tier):
+    """(1) an estimator whose bound can reach exactly 0 A (rampdown without upward probing, battery full before the
+    request is met); (2) a network with an EVSE that has no maximum rate; (3) two-stage runs: the limit of the
+    last-added constraint is tightened between two run() calls of one simulator"""
+    thorough = tier == "thorough"
+    # (1)
+    for netname in ("N2", "N5"):
+        stations = list(S.NETS[netname]["stations"])
+        pool = [sess(st, a, 4, kind, i) for i, (st, a, kind) in enumerate(itertools.product(stations, (0, 1), ("capped", "fast")))]
+        for ss in S.session_subsets(pool, 1, 2):
+            if not any(s["kind"] == "capped" for s in ss):
+                continue
+            for algo in ("greedy", "rr"):
+                for sort in (SORTS if thorough else ("fcfs", "llf")):
+                    for unint in (False, True):
+                        yield {"net": netname, "sessions": ss, "sched": {"kind": algo, "sort": sort, "est": "ramp0", "unint": unint, "inc": 1}, "period": 5}
+    # (2)
+    stations = list(S.NETS["N9"]["stations"])
+    pool = [sess(st, a, 3, kind, i) for i, (st, a, kind) in enumerate(itertools.product(stations, (0, 1), ("fast", "small")))]
+    for ss in S.session_subsets(pool, 1, 3 if thorough else 2):
+        for algo in ("greedy", "rr"):
+            for sort in (SORTS if thorough else ("fcfs", "lrpt")):
+                for est in (False, True):
+                    yield {"net": "N9", "sessions": ss, "sched": {"kind": algo, "sort": sort, "est": est, "unint": False, "inc": 1}, "period": 5}
+    # (3)
+    for st2, kind2 in itertools.product(("PS-B", "PS-C"), ("fast", "slow")):
+        ss = [dict(sess("PS-A", 0, 2, "fast", 0), sid="ev0"), dict(sess(st2, 4, 3, kind2, 1), sid="ev1"), dict(sess("PS-A", 4, 2, "fast", 2), sid="ev2")]
+        for opt in options(tier, (False, True)):
+            yield {"net": "N2", "sessions": ss, "sched": opt, "period": 5, "two_phase": 4, "edit": 9.7}
+
+
 class Capture:
     """on_call/on_return pair recording, per invocation, the true state and the output"""
 
@@ -95,17 +128,32 @@ class Capture:
         return out
 
 
-def run(scn, owned=None):
+def run(scn, owned=None, algo=None):
+    """`algo`: an algorithm OBJECT to use instead of a fresh one (the same object driven through several simulations)"""
     cap = Capture()
     tr = S.Trace()
     tr.scn, tr.error = scn, None
     with warnings.catch_warnings(record=True) as wlog:
         warnings.simplefilter("always")
-        sim, rec, evs, periods = S.build_sim(scn, on_call=cap.on_call, on_return=cap.on_return)
+        sim, rec, evs, periods = S.build_sim(scn, algo=algo, on_call=cap.on_call, on_return=cap.on_return)
         cap.evs = evs
         tr.sim, tr.rec, tr.evs, tr.periods = sim, rec, evs, periods
+        later = []
+        if scn.get("two_phase") is not None:
+            keep = [e for ts, e in sim.event_queue._queue if ts < scn["two_phase"]]
+            later = [e for ts, e in sim.event_queue._queue if ts >= scn["two_phase"]]
+            sim.event_queue._queue = []
+            sim.event_queue.add_events(keep)
         try:
             sim.run()
+            if later:
+                if scn.get("edit") is not None:
+                    from acnportal.acnsim.network import Current
+
+                    cname, coefs, _ = S.NETS[scn["net"]]["constraints"][-1]
+                    sim.network.update_constraint(cname, Current(dict(coefs)), scn["edit"], cname)
+                sim.event_queue.add_events(later)
+                sim.run()
         except Exception as exc:
             guard(exc)
             tr.error = exc
